@@ -133,11 +133,17 @@ type rangeEngine struct {
 	zoom  Kind                // which zoom kind defines n
 	bind  map[ssa.Value]sival // parameter bindings (interprocedural)
 	depth int
+	// closures: captured variables are read in the creating activation
+	parent *rangeEngine
+	free   map[*ssa.FreeVar]ssa.Value
 }
 
 // isN: v == 2^zoom as an integer or float value
 func (re *rangeEngine) isPow(v ssa.Value) bool {
 	v = stripConv(v)
+	if pv, pe := re.capturedValue(v); pv != nil {
+		return pe.isPow(pv)
+	}
 	if c, ok := v.(*ssa.Convert); ok {
 		return re.isPow(c.X)
 	}
@@ -168,8 +174,40 @@ func (re *rangeEngine) isPow(v ssa.Value) bool {
 	return false
 }
 
+// capturedValue: v is a load of a captured variable that is assigned exactly
+// once in the creating function: that value and the engine of its function.
+func (re *rangeEngine) capturedValue(v ssa.Value) (ssa.Value, *rangeEngine) {
+	u, ok := v.(*ssa.UnOp)
+	if !ok || u.Op != token.MUL || re.parent == nil {
+		return nil, nil
+	}
+	fv, ok := u.X.(*ssa.FreeVar)
+	if !ok {
+		return nil, nil
+	}
+	al, ok := re.free[fv].(*ssa.Alloc)
+	if !ok {
+		return nil, nil
+	}
+	n := 0
+	var val ssa.Value
+	for _, ref := range *al.Referrers() {
+		if st, ok := ref.(*ssa.Store); ok && st.Addr == ssa.Value(al) {
+			n++
+			val = st.Val
+		}
+	}
+	if n != 1 {
+		return nil, nil
+	}
+	return val, re.parent
+}
+
 // def: interval of v from its definition (no branch refinement of v itself)
 func (re *rangeEngine) def(v ssa.Value, at *ssa.BasicBlock) sival {
+	if pv, pe := re.capturedValue(stripConv(v)); pv != nil {
+		return pe.def(pv, nil)
+	}
 	if k, ok := constInt(v); ok {
 		return constI(k)
 	}
@@ -299,6 +337,14 @@ func (re *rangeEngine) def(v ssa.Value, at *ssa.BasicBlock) sival {
 			}
 			if re.w != nil && re.w.InModule(g) && g.Blocks != nil && re.depth < 3 && isIntType(x.Type()) {
 				sub := &rangeEngine{w: re.w, ke: re.ke, f: g, busy: map[ssa.Value]bool{}, zoom: re.zoom, bind: map[ssa.Value]sival{}, depth: re.depth + 1}
+				if mc, ok := x.Call.Value.(*ssa.MakeClosure); ok {
+					sub.parent, sub.free = re, map[*ssa.FreeVar]ssa.Value{}
+					for i, fv := range g.FreeVars {
+						if i < len(mc.Bindings) {
+							sub.free[fv] = mc.Bindings[i]
+						}
+					}
+				}
 				for i, p := range g.Params {
 					if i < len(x.Call.Args) && (isIntType(p.Type()) || isFloatType(p.Type())) {
 						sub.bind[p] = re.at(x.Call.Args[i], x.Block())
